@@ -845,7 +845,8 @@ pub fn run(args: &Args) {
         let seconds = [Spec::Fan(true), Spec::GpioIn(0b0110), Spec::Reads(true), Spec::CpuGpio(0xA0), Spec::Debug([0x21u64 << 56 | 5, 0, 0x10u64 << 56, 0]), Spec::SilRate(9, 11)];
         for (i, a) in firsts.iter().enumerate() {
             for (j, b) in seconds.iter().enumerate() {
-                if thorough || (i + j) % 2 == 0 {
+                // the flag datagrams as first members (i >= 6) meet every second member in the quick tier too
+                if thorough || (i + j) % 2 == 0 || i >= 6 {
                     run_tuple_case(&mut out, 1 + (i + j) % 2, &[Spec::Fan(false), Spec::GpioIn(0)], a, b);
                 }
             }
